@@ -6,7 +6,7 @@ import os
 import vplib
 from vplib import Case
 
-IMPORTS = ["Ty.Ty", "Value.ValueModel", "Value.Run"]
+IMPORTS = ["Ty.Ty", "Value.ValueModel", "Value.Run", "Value.RunWord"]
 CRATE = None  # merged into the main harness crate
 COMMAND = "value"
 
@@ -365,6 +365,10 @@ def op_line(o):
     if n == "mach":
         # ('mach', k, w, side, j, u)
         return "mach %d %d %s %s %d" % (o[1], o[2], o[3], "-" if o[4] is None else o[4], o[5])
+    if n == "ctx8":
+        return "ctx8 %s %d %s" % (hexs(o[1]), o[2], hexs(o[3]))
+    if n == "isty":
+        return "isty %d %s" % (o[1], ty_str(o[2]))
     raise ValueError(n)
 
 
@@ -400,6 +404,10 @@ def op_parse(toks):
         return ("prune", int(toks[1]), ty_parse(toks[2]))
     if n == "mach":
         return ("mach", int(toks[1]), int(toks[2]), toks[3], None if toks[4] == "-" else int(toks[4]), int(toks[5]))
+    if n == "ctx8":
+        return ("ctx8", unhex(toks[1]), int(toks[2]), unhex(toks[3]))
+    if n == "isty":
+        return ("isty", int(toks[1]), ty_parse(toks[2]))
     raise ValueError(n)
 
 
@@ -461,6 +469,10 @@ def op_coq(o):
     if n == "mach":
         t, frame = mach_frame(o)
         return "OMach %s %s" % (ty_coq(t), coq_list(pack(frame)))
+    if n == "ctx8":
+        return "OCtx8 %s %d %s" % (coq_list(o[1]), o[2], coq_list(o[3]))
+    if n == "isty":
+        return "OIsType %d %s" % (o[1], ty_coq(o[2]))
     raise ValueError(n)
 
 
@@ -477,12 +489,12 @@ def make_case(cid, kind, ops, meta=None, sel=None):
     m = {"ops": [op_line(o) for o in ops]}
     if meta:
         m.update(meta)
-    if kind == "pair":
+    if kind in ("pair", "wpair"):
         if sel is None:
             sel = list(range(len(ops)))
         m["sel"] = sel
         return Case(cid, kind, "%s %s" % (",".join(str(i) for i in sel), ops_line(ops)),
-                    "run_pair %s %s" % (coq_list(["%d%%nat" % i for i in sel]), ops_coq(ops)), m)
+                    "run_%s %s %s" % (kind, coq_list(["%d%%nat" % i for i in sel]), ops_coq(ops)), m)
     return Case(cid, kind, ops_line(ops), "run_%s %s" % (kind, ops_coq(ops)), m)
 
 
@@ -491,6 +503,23 @@ def case_ops(c):
 
 
 # ----------------------------------------------------------------------------- reference interpreter
+def buffer_value(nn, data):
+    """the intended element of buffer_ty(nn): per component Some(next 2^k bytes) iff bit k of the length is set"""
+    vals = []
+    rest = list(data)
+    for lvl in range(nn, -1, -1):
+        nb = 2 ** lvl
+        if len(data) & nb:
+            vals.append(('R', word_value(lvl + 3, bits_of_bytes(rest[:nb]))))
+            rest = rest[nb:]
+        else:
+            vals.append(('L', U))
+    v = vals[-1]
+    for x in reversed(vals[:-1]):
+        v = ('P', x, v)
+    return v
+
+
 def ref_run(ops):
     """Semantic meaning of a pool program, independent of any byte layout.
     Returns (pool, log): pool entries are (type, value) or an int failure code
@@ -610,6 +639,18 @@ def ref_run(ops):
             if a:
                 # BitMachine::exec returns Value::unit() for every target type of width 0
                 e = a if width(a[0]) > 0 else (ONE, U)
+        elif n == "ctx8":
+            mid, cnt, data = o[1], o[2], o[3]
+            if len(data) > 63:
+                e = 3
+            else:
+                e = (Prod(buffer_ty(5), Prod(word(6), word(8))),
+                     ('P', buffer_value(5, data), ('P', word_value(6, int_bits(cnt, 64)), word_value(8, bits_of_bytes(mid)))))
+        elif n == "isty":
+            a = get(o[1])
+            if a:
+                e = a
+                extra = [1 if a[0] == o[2] else 0]
         else:
             raise ValueError(n)
         pool.append(e)
@@ -632,7 +673,7 @@ def split_log(r, ops):
         code = r[p]
         p += 1
         extra = []
-        if code == 0 and o[0] in ("pad", "cmp"):
+        if code == 0 and o[0] in ("pad", "cmp", "isty"):
             if p >= len(r):
                 return None
             extra = [r[p]]
@@ -696,6 +737,25 @@ def parse_pair(r, ops, sel):
         return None
     m = [[tuple(rest[3 * (i * n + j):3 * (i * n + j) + 3]) for j in range(n)] for i in range(n)]
     return codes, oksel, m
+
+
+def parse_wpair(r, ops, sel):
+    """kind wpair -> (codes, selected ok indices, word n per selected (None = not a word),
+    matrix over the words) | None"""
+    sl = split_log(r, ops)
+    if sl is None:
+        return None
+    codes, rest = sl
+    oksel = [i for i in sel if 0 <= i < len(codes) and codes[i][0] == 0]
+    if len(rest) < len(oksel):
+        return None
+    ns = [None if x == 0 else x - 1 for x in rest[:len(oksel)]]
+    rest = rest[len(oksel):]
+    n = len([x for x in ns if x is not None])
+    if len(rest) != 3 * n * n:
+        return None
+    m = [[tuple(rest[3 * (i * n + j):3 * (i * n + j) + 3]) for j in range(n)] for i in range(n)]
+    return codes, oksel, ns, m
 
 
 def raw_only_difference(c, impl_r, model_r):
